@@ -385,4 +385,70 @@ fn c13_step_xover_accept() {
     kani::cover!(h2.travel_ingress(&i1) != 0 && h2.travel_ingress(&i1) != ingress_if, "shortcut: new hop field names the parent-side ingress");
     kani::cover!(h2.travel_ingress(&i1) == 0, "regular crossover at a segment origin");
 }
+/// Soundness companion of `c13_step_xover_accept`: same crossover shape, arbitrary link states.
+#[kani::proof]
+#[kani::unwind(14)]
+fn c13_step_xover_sound() {
+    let seg = [2u8, 2, 0];
+    let before: [u8; 68] = {
+        let mut b = any_path::<68>(seg);
+        b[0] = 1; // CurrINF = 0, CurrHF = 1: last hop field of segment 0
+        // bytes this step does not read are concrete zeros: hop fields 0 and 3, the (ignored) MACs
+        let mut i = 0;
+        while i < 12 {
+            b[hop_off(2, 0) + i] = 0;
+            b[hop_off(2, 3) + i] = 0;
+            i += 1;
+        }
+        let mut i = 6;
+        while i < 12 {
+            b[hop_off(2, 1) + i] = 0;
+            b[hop_off(2, 2) + i] = 0;
+            i += 1;
+        }
+        b
+    };
+    let mut buf = before;
+    let h1 = spec_hop(&before[hop_off(2, 1)..hop_off(2, 1) + 12]);
+    let i0 = spec_info(&before[info_off(0)..info_off(0) + 8]);
+    let h2 = spec_hop(&before[hop_off(2, 2)..hop_off(2, 2) + 12]);
+    let i1 = spec_info(&before[info_off(1)..info_off(1) + 8]);
+    let ingress_if: u16 = kani::any();
+    let now: u32 = kani::any();
+    let key: ForwardingKey = [0u8; 16];
+    let s_in = any_iface();
+    let s_out = any_iface();
+    let if_in = h1.travel_ingress(&i0);
+    let if_out = h2.travel_egress(&i1);
+
+    // the SCION-valid crossover
+    kani::assume(ingress_if != 0 && ingress_if == if_in);
+    kani::assume(if_out != if_in && if_out != 0);
+    kani::assume(h1.time_ok(&i0, now) && h2.time_ok(&i1, now));
+    kani::assume(!h1.travel_egress_alert(&i0) && !h1.travel_ingress_alert(&i0));
+    kani::assume(!h2.travel_ingress_alert(&i1) && !h2.travel_egress_alert(&i1));
+    let (lin, lout, up) = match (&s_in, &s_out) {
+        (Some(a), Some(b)) => (a.link_type, b.link_type, b.is_up),
+        _ => (LT::LinkToParent, LT::LinkToParent, false),
+    };
+
+    let res = {
+        let (path, _rest) = StandardPathView::try_from_mut_slice(&mut buf).unwrap();
+        let lookup = |id: u16| if id == if_in { s_in.clone() } else if id == if_out { s_out.clone() } else { None };
+        StdRoutingLogic::handle_standard_path(IsdAsn(kani::any()), path, ingress_if, ScionNetworkTime(now), &key, &lookup, true)
+    };
+    // soundness at a crossover (added after seeded change C13-2): a forwarding verdict implies that the
+    // egress is the new segment's travel-direction egress, that its link exists AND IS UP, that the
+    // arrival link exists and that the link-type pair is in the SCION table
+    if let Ok(AsRoutingAction::ForwardNextHop { egress_interface_id }) = &res {
+        assert!(*egress_interface_id == if_out, "C13.xover_sound: forwarded over an interface that is not the new segment's egress");
+        assert!(s_in.is_some() && s_out.is_some(), "C13.xover_sound: forwarded although a looked-up interface does not exist");
+        assert!(up, "C13.xover_sound: forwarded over a link that is down");
+        assert!(spec_segment_change_allowed(lin, lout), "C13.xover_sound: forwarded across a link-type pair outside the SCION table");
+    }
+    kani::cover!(matches!(res, Ok(AsRoutingAction::ForwardNextHop { .. })), "crossover forwarded");
+    kani::cover!(res.is_err() && s_out.is_some() && !up, "refused because the egress link is down");
+    kani::cover!(h2.travel_ingress(&i1) != 0 && h2.travel_ingress(&i1) != ingress_if, "shortcut: new hop field names the parent-side ingress");
+    kani::cover!(h2.travel_ingress(&i1) == 0, "regular crossover at a segment origin");
+}
 use crate::network::scion::routing::AsRoutingLinkType as LT;
